@@ -115,6 +115,8 @@ def concretise(hist, payload=default_payload, skin=None, k0=0):
     n = len(hist)
     koff = k0
     kd = ""
+    diffu = bool(hist) and (hist[0]["c"] == "du" or hist[0].get("kd") == "dufile")
+    stamp = "\t2024-01-01 00:00:00.000000000 +0000"
     for k0, l in enumerate(hist):
         k = k0 + 1 + koff
         c, f, g = l["c"], l["f"], l["g"]
@@ -129,6 +131,16 @@ def concretise(hist, payload=default_payload, skin=None, k0=0):
                 t = t.decode("latin-1")  # raw bytes travel as latin-1 and are re-encoded below
         elif c == "blank":
             t = ""
+        elif c == "du":
+            t = f"diff -ru old/{bare_path(f, skin)} new/{bare_path(g, skin)}"
+        elif c == "mmm" and diffu:
+            t = f"--- old/{bare_path(f, skin)}{stamp}"
+        elif c == "ppp" and diffu:
+            t = f"+++ new/{bare_path(f, skin)}{stamp}"
+        elif c == "minus3":
+            t = "--- " + payload(k, c)
+        elif c == "plus3":
+            t = "+++ " + payload(k, c)
         elif c == "diff" and comb:
             t = "diff --cc " + plain_path(f, skin)
         elif c == "diff":
@@ -165,11 +177,14 @@ def concretise(hist, payload=default_payload, skin=None, k0=0):
             # count body lines of this hunk
             nm = np_ = 0
             j = k0 + 1
-            while j < n and hist[j]["c"] in ("minus", "plus", "zero", "nonl", "cin", "m_ours", "m_anc", "m_theirs", "m_end"):
+            while j < n and hist[j]["c"] in ("minus", "plus", "zero", "nonl", "cin", "m_ours", "m_anc", "m_theirs", "m_end",
+                                           "minus3", "plus3") and not hist[j].get("kd"):
                 cc = hist[j]["c"]
-                nm += cc in ("minus", "zero")
-                np_ += cc in ("plus", "zero")
+                nm += cc in ("minus", "zero", "minus3")
+                np_ += cc in ("plus", "zero", "plus3")
                 j += 1
+            if diffu:
+                nm = g          # the old-side length the environment announced
             start = skin.get("start", 10) + 100 * k
             fr = skin.get("frag", "std")
             frag = {"std": f" fragZ{k}Z", "none": "", "numbers": f" fragZ{k}Z = -1; x +5,2 @@ y", "space": " "}[fr]
@@ -216,7 +231,7 @@ def line_events(hist, texts, intern, tabs=8):
         comb = kd == "cc"
         if c in ("minus", "plus", "zero", "cin") and comb:
             pre, pay = t[:2], t[2:]
-        elif c in ("minus", "plus", "zero"):
+        elif c in ("minus", "plus", "zero", "minus3", "plus3"):
             pre, pay = t[:1], t[1:]
         elif c == "commit":
             pre, pay = "", t
